@@ -40,7 +40,7 @@ RULE = (
 )
 ASSUMPTIONS = [
     "the UDP ports of the harness's block are private to this process (flock), so bindability reflects only the bridge and the harness",
-    "start while already running must fail with OSError (its own ports are taken); afterwards either the running bridge is as it was or nothing is left listening - both readings are accepted, is_running must agree with the sockets",
+    "start on a bridge that is already running: the statement is silent; it may fail with OSError (its own ports are taken) or return without doing anything; afterwards either the running bridge is as it was or nothing is left listening - is_running must agree with the sockets",
     "probe broadcasts are part of the observation (they do not change the model state)",
 ]
 
@@ -188,13 +188,19 @@ class World:
             if will and out[0] != "ok":
                 res.violation("start-fails", case, f"{tag}: start on free ports -> {out[0]} {out[1]!r}")
                 ok = False
-            if not will and (out[0] != "exc" or not isinstance(out[1], OSError)):
+            if not will and m["occupied"] and (out[0] != "exc" or not isinstance(out[1], OSError)):
                 res.violation("failing-start-does-not-raise", case, f"{tag}: start with a port taken -> {out[0]} {out[1]!r}", "OSError", repr(out[1]))
                 ok = False
-            if not will and m["running"] and br.is_running is False:
-                # start failed on a bridge that was running: "nothing is left listening" is the other accepted reading
-                self.m = dict(m, running=False, listening=frozenset())
-                return self.check(res, case, tag) and ok
+            if not will and m["running"]:
+                # start on a bridge that is already running: the statement is silent. Accepted: it fails with OSError (its own
+                # ports are taken) or it returns without doing anything; afterwards the bridge is as it was or nothing is left
+                # listening - is_running must agree with the sockets either way (checked below)
+                if out[0] == "exc" and not isinstance(out[1], OSError):
+                    res.violation("failing-start-does-not-raise", case, f"{tag}: start on a running bridge -> {out[1]!r}", "OSError or a no-op", repr(out[1]))
+                    ok = False
+                if br.is_running is False:
+                    self.m = dict(m, running=False, listening=frozenset())
+                    return self.check(res, case, tag) and ok
         elif a == "stop":
             out = self.bw.run(br.stop())
             if out[0] != "ok":
@@ -229,6 +235,13 @@ class World:
                 if a == "ctx_ok" and out[0] != "ok":
                     res.violation("context-fails", case, f"{tag}: {out[0]} {out[1]!r}")
                     ok = False
+            elif m["running"] and seen:
+                # `async with` on a running bridge whose start is a no-op: the body ran, the exit stopped the bridge
+                if a in BODY_EXC and (out[0] != "exc" or type(out[1]) is not BODY_EXC[a]):
+                    res.violation("body-exception-swallowed", case, f"{tag}: body raised {BODY_EXC[a].__name__}, caller saw {out[0]} {out[1]!r}")
+                    ok = False
+                self.m = dict(m, running=False, listening=frozenset())
+                return self.check(res, case, tag) and ok
             elif out[0] != "exc" or not isinstance(out[1], OSError) or seen:
                 res.violation("failing-start-does-not-raise", case, f"{tag}: async with with a port taken -> {out[0]} {out[1]!r} (body entered: {bool(seen)})")
                 ok = False
@@ -393,12 +406,17 @@ def twin_shared(res, actions):
                             res.violation("start-fails", case, f"{tag}: {out[0]} {out[1]!r}")
                             return
                         owner = who
+                    elif owner == who:
+                        # start on the running bridge itself: OSError or a no-op; "nothing left listening" is the other accepted reading
+                        if out[0] == "exc" and not isinstance(out[1], OSError):
+                            res.violation("failing-start-does-not-raise", case, f"{tag}: second start -> {out[0]} {out[1]!r}")
+                            return
+                        if w.bridge.is_running is False:
+                            owner = None
                     else:
                         if out[0] != "exc" or not isinstance(out[1], OSError):
                             res.violation("failing-start-does-not-raise", case, f"{tag}: the port is taken by bridge {owner}: {out[0]} {out[1]!r}")
                             return
-                        if owner == who and w.bridge.is_running is False:
-                            owner = None  # start on the running bridge itself: "nothing left listening" is the other accepted reading
                 else:
                     if out[0] != "ok":
                         res.violation("stop-raises", case, f"{tag}: {out[0]} {out[1]!r}")
@@ -450,7 +468,7 @@ def twin(res, actions):
                 tag = f"after action #{n} {act} of {actions}"
                 if what == "start":
                     if running[who]:
-                        if out[0] != "exc" or not isinstance(out[1], OSError):
+                        if out[0] == "exc" and not isinstance(out[1], OSError):
                             res.violation("failing-start-does-not-raise", case, f"{tag}: second start -> {out[0]} {out[1]!r}")
                             return
                         if w.bridge.is_running is False:
@@ -586,6 +604,80 @@ def bad_port(res):
                     bw.close()
 
 
+CANCEL_PRE = ([], ["start", "stop"], ["ctx_ok"], ["occupy0", "start", "release0"])
+
+
+def cancelled_start(res, nports, pre, k):
+    """start() is abandoned by its caller (cancelled, which is also what a timeout does) after k event-loop iterations:
+    the stop() that follows must release everything the abandoned start had opened, and the bridge must start normally afterwards."""
+    from mc.world import task_outcome
+
+    case = {"part": "cancelstart", "nports": nports, "pre": list(pre), "k": k, "actions": list(pre) + [f"start cancelled after {k} loop iterations", "stop", "start", "stop"]}
+    set_zone("UTC")
+    with Clock(1_700_000_000.0), Capture():
+        wd = World(nports)
+        try:
+            for n, a in enumerate(pre):
+                if not wd.step(a, res, case, n):
+                    return None
+            loop = wd.bw.loop
+            task = loop.create_task(wd.bw.bridge.start())
+            for _ in range(k):
+                loop.step()
+            task.cancel()
+            loop.settle()
+            if not task.done():
+                res.violation("cancelled-start-hangs", case, f"start cancelled after {k} loop iterations never finished")
+                return None
+            out = task_outcome(task)
+            tag = f"after start was cancelled after {k} loop iterations ({'completed first' if out[0] == 'ok' else out[0]}) following {list(pre)}"
+            if out[0] == "ok":
+                wd.m = model_next(wd.m, "start", nports)
+            elif out[0] == "exc":
+                res.violation("cancelled-start-raises", case, f"{tag}: {out[1]!r}")
+                return None
+            if out[0] == "ok":
+                ok = wd.check(res, case, tag)
+            else:
+                # what an abandoned start leaves bound until the next stop() is not judged (the statement speaks of a start
+                # that fails on a port); but stop() is a stop call like any other: once it returns every port is released
+                # and no callback is made any more - whatever the abandoned start had opened
+                ok = wd.step("stop", res, case, len(pre) + 1)
+                if ok:
+                    ok = wd.step("start", res, case, len(pre) + 2)
+            if ok:
+                wd.step("stop", res, case, len(pre) + 3)
+            return out[0]
+        finally:
+            wd.close()
+
+
+def two_loops(res, nports, pre, close_first):
+    """One bridge object used under two event loops one after the other (two asyncio.run calls in one process):
+    a stopped bridge can be started again."""
+    from mc.world import new_loop
+
+    case = {"part": "twoloops", "nports": nports, "pre": list(pre), "close_first": close_first, "actions": list(pre) + ["<new event loop>", "start", "stop", "ctx_ok"]}
+    set_zone("UTC")
+    with Clock(1_700_000_000.0), Capture():
+        wd = World(nports)
+        old = wd.bw.loop
+        try:
+            for n, a in enumerate(pre):
+                if not wd.step(a, res, case, n):
+                    return
+            if close_first:
+                old.finish()
+            wd.bw.loop = new_loop()
+            for n, a in enumerate(["start", "stop", "ctx_ok"]):
+                if not wd.step(a, res, case, len(pre) + 1 + n):
+                    return
+        finally:
+            wd.close()
+            if not close_first:
+                old.finish()
+
+
 def plan(tier):
     return [(1, 4 if tier == "quick" else 6), (2, 4 if tier == "quick" else 5)] + ([(3, 4)] if tier == "thorough" else [(3, 3)])
 
@@ -605,6 +697,8 @@ def jobs(tier, seed):
         js.append({"part": "tla", "nports": nports})
     js.append({"part": "inflight", "tier": tier})
     js.append({"part": "badport"})
+    js.append({"part": "cancelstart"})
+    js.append({"part": "twoloops"})
     js.append({"part": "twin", "depth": 4 if tier == "quick" else 6})
     return js
 
@@ -614,6 +708,27 @@ def run_job(job):
     if job["part"] == "bfs":
         closed, n, d = bfs(job["nports"], res)
         res.add("bfs", (job["nports"], closed, n, d))
+        return res
+    if job["part"] == "cancelstart":
+        for nports in (1, 2, 3):
+            for pre in CANCEL_PRE:
+                outs = set()
+                for k in range(0, 4 * nports + 3):
+                    o = cancelled_start(res, nports, pre, k)
+                    outs.add(o)
+                    res.traces += 1
+                    res.case(("cancelstart", nports, tuple(pre), k), nontrivial=o == "cancelled")
+                res.outcome(("cancelstart", nports, tuple(sorted(map(str, outs)))))
+        res.sample({"part": "cancelstart", "nports": 2, "pre": [], "k": 2, "expect": "after the following stop nothing is listening; then start/stop work"})
+        return res
+    if job["part"] == "twoloops":
+        for nports in (1, 2):
+            for pre in ([], ["start", "stop"], ["ctx_ok"], ["ctx_raise"], ["occupy0", "start", "release0"], ["start", "stop", "start", "stop"]):
+                for close_first in (True, False):
+                    two_loops(res, nports, pre, close_first)
+                    res.traces += 1
+                    res.case(("twoloops", nports, tuple(pre), close_first), nontrivial=bool(pre))
+        res.sample({"part": "twoloops", "nports": 2, "pre": ["start", "stop"], "close_first": True})
         return res
     if job["part"] == "badport":
         bad_port(res)
@@ -668,6 +783,12 @@ def run_job(job):
 
 def replay(case):
     res = Res()
+    if case.get("part") == "cancelstart":
+        cancelled_start(res, case["nports"], case["pre"], case["k"])
+        return res.violations
+    if case.get("part") == "twoloops":
+        two_loops(res, case["nports"], case["pre"], case["close_first"])
+        return res.violations
     if case.get("part") == "badport":
         bad_port(res)
         return [v for v in res.violations if v["case"] == case] or res.violations
